@@ -71,6 +71,24 @@ PROPS.update({
                       "content length 0..=N with every split into read sizes, plus lengths around the 8 KiB buffer boundary; Null checksum = 0.",
         "level_note": VERUS_NOTE + "u32::from_be_bytes contract assumed via a wrapper (declared rewrite). The bounded part is labelled bounded and not counted as proved.",
     },
+    "C15": {
+        "title": "With the CRC option on, corrupted PDUs are rejected",
+        "verus": [("crc", ["O-C15-"])],
+        "native": [{"prog": "crc_accept_bounded", "quick": ["search", "quick"], "thorough": ["search", "thorough"], "obligation": "O-C15-accept-corpus",
+                    "fn": "PDU::decode", "file": "cfdp-core/src/pdu.rs",
+                    "bound": "60-PDU corpus x all single/double(<16)/burst(<=8 exhaustive, <=16 sampled) patterns after octet 4; EOF(cancel) x 2^16 checksums"}],
+        "level": "other",
+        "technique": "deductive verification (Verus/Z3) of the real CRC routines and of the CRC-16 error-detection algebra + bounded native check of the decoder's acceptance test",
+        "design_ref": "DESIGN.md 4/C15",
+        "level_text": "Proof + bounded. PROVED (unbounded, all message lengths): the real crc16/crc16_ibm_3740 (extracted from pdu.rs) compute "
+                      "crc_from(0xFFFF, m) of the bit-serial CCITT definition; for that function a receiver comparing crc(received message) with the "
+                      "received CRC rejects every error pattern over message+CRC that is a burst of <= 16 bits (single-bit and near double-bit errors "
+                      "included), has an odd number of flipped bits, or is a double-bit error less than 32767 bits apart (tight) - theorem_crc_detects & co. "
+                      "BOUNDED: that PDU::decode's acceptance test IS that comparison over the octets as received (and accepts unaltered PDUs) is checked "
+                      "on a corpus of every PDU kind x file-size flags x id widths under all single/near-double/short-burst patterns and a 2^16 sweep of "
+                      "the EOF checksum field for the condition-nibble burst that exposed the re-encoding defect.",
+        "level_note": VERUS_NOTE + "Iterator::fold contract on slice iterators assumed. The bounded corpus check is labelled bounded and not counted as proved.",
+    },
     "C17": {
         "title": "Limit faults fire after exactly the configured expirations; set handler runs",
         "verus": [("timer", ["O-C17-"]), ("send", ["O-C17-"]), ("recv", ["O-C17-"])],
